@@ -250,6 +250,7 @@ class World:
         self.durable_seq = 0
         self.ledger: list[dict[str, Any]] = []
         self.handler_calls: dict[str, int] = {}      # message_id -> handler invocations
+        self.sweep_marks: list[list[int]] = []      # [durable audit seq when a recovery sweep began, ... when it ended]
         self.handler_log: list[tuple[int, str, str, int, int]] = []  # (inc, type, message_id, commit_count, durable audit seq)
         self.bus_log: list[dict[str, Any]] = []
         self.ctx: dict[int, tuple[str, str]] = {}    # worker -> (handler, message id)
@@ -706,6 +707,16 @@ class World:
 
     def dlq_rows(self) -> list[dict[str, Any]]:
         return [dict(r) for r in self.hquery("SELECT * FROM queue_messages_dlq ORDER BY id")]
+
+    def run_sweep(self) -> Any:
+        """The real recovery sweep, bracketed by the durable audit position at its start and end (what the sweep can
+        have read lies before the end mark; what became durable after the start mark may have been missed)."""
+        mark = [self.durable_seq, -1]
+        self.sweep_marks.append(mark)
+        try:
+            return self.processor.run_recovery()
+        finally:
+            mark[1] = self.durable_seq
 
     def record_execution(self, key: str, stage: Any, result: str) -> dict[str, Any]:
         arm = self.hquery("SELECT count(*) AS c FROM sim_audit WHERE kind='stage' AND row_id=? AND new='NOT_STARTED' "
